@@ -57,6 +57,14 @@ namespace B { entity X; }
 entity Top;
 `
 
+// child -> parents; every graph has nodes with >= 2 parents
+var hierarchyGraphs = []map[string][]string{
+	{"a": {"b", "c"}, "b": {"d"}, "c": {"d", "f"}, "d": {"e"}, "e": nil, "f": {"t"}, "t": nil},
+	{"a": {"c", "b"}, "c": {"d"}, "b": {"d", "f"}, "d": {"e"}, "e": nil, "f": {"t"}, "t": nil},             // same shape, other labelling
+	{"a": {"b", "c"}, "b": {"d", "e"}, "c": {"d", "e"}, "d": {"f", "a"}, "e": {"f"}, "f": {"t"}, "t": nil}, // layered diamonds with a cycle
+	{"a": {"p1", "p2", "p3", "p4"}, "p1": nil, "p2": {"p1"}, "p3": {"t", "p2"}, "p4": {"p3"}, "t": nil},    // fan
+}
+
 type workload struct {
 	name string
 	run  func() (string, error)
@@ -105,6 +113,44 @@ func workloads() []workload {
 				})
 			sort.Strings(out)
 			return strings.Join(out, "\n"), err
+		}},
+		{"authorize-over-multi-parent-hierarchies", func() (string, error) {
+			// several small hierarchies in which nodes have two or more parents (diamonds, a
+			// cycle, a fan): the traversal iterates parent SETS, whose order is a map order;
+			// every ordered pair is decided through scope `in`, `in [..]`, `is .. in` and the
+			// `in` operator, and the whole table must not depend on that order.
+			var sb strings.Builder
+			for gi, g := range hierarchyGraphs {
+				em := types.EntityMap{}
+				var names []string
+				for n := range g {
+					names = append(names, n)
+				}
+				sort.Strings(names)
+				uidOf := func(n string) types.EntityUID { return types.NewEntityUID("N", types.String(n)) }
+				for _, n := range names {
+					var ps []types.EntityUID
+					for _, p := range g[n] {
+						ps = append(ps, uidOf(p))
+					}
+					em[uidOf(n)] = types.Entity{UID: uidOf(n), Parents: types.NewEntityUIDSet(ps...)}
+				}
+				for _, a := range names {
+					for _, b := range names {
+						doc := fmt.Sprintf(`permit(principal in N::%q, action, resource);
+permit(principal, action in [N::"zz", N::%q], resource);
+permit(principal, action, resource is N in N::%q);
+permit(principal, action, resource) when { principal in N::%q && principal in [N::"zz", N::%q] };`, b, b, b, b, b)
+						ps, err := cedar.NewPolicySetFromBytes("h.cedar", []byte(doc))
+						if err != nil {
+							return "", err
+						}
+						d, dg := cedar.Authorize(ps, em, cedar.Request{Principal: uidOf(a), Action: uidOf(a), Resource: uidOf(a)})
+						fmt.Fprintf(&sb, "g%d %s in %s: %s\n", gi, a, b, diagString(d, dg))
+					}
+				}
+			}
+			return sb.String(), nil
 		}},
 		{"marshal-parsed-policies", func() (string, error) {
 			ps, err := cedar.NewPolicySetFromBytes("f.cedar", []byte(policyDoc))
